@@ -517,7 +517,7 @@ fn copy_truncated(src: &Path, dst: &Path, len: u64) -> std::io::Result<()> {
     Ok(())
 }
 
-fn read_all(path: &Path) -> Result<Vec<Event>, String> {
+pub fn read_all(path: &Path) -> Result<Vec<Event>, String> {
     let mut reader = JournalReader::open(path).map_err(|e| format!("{e:?}"))?;
     let mut out = Vec::new();
     for e in &mut reader {
@@ -862,7 +862,7 @@ pub fn check_journal(events: &[Event], prune_points: &[(usize, Vec<u32>, Vec<u32
 }
 
 /// Runs the real journal thread on `path`: prune with the given live sets, then append records.
-fn prune_via_thread(path: &Path, buffered: &[Event], live_jobs: &[u32], live_workers: &[u32], appended: &[Event], prune_twice: bool) -> Result<(), String> {
+pub fn prune_via_thread(path: &Path, buffered: &[Event], live_jobs: &[u32], live_workers: &[u32], appended: &[Event], prune_twice: bool) -> Result<(), String> {
     let writer = JournalWriter::create_or_append(path, None).map_err(|e| format!("{e:?}"))?;
     let (tx, end) = start_event_streaming(writer, path, Duration::from_secs(3600));
     let rt = tokio::runtime::Builder::new_current_thread().enable_time().build().unwrap();
